@@ -213,8 +213,9 @@ func runC18(c *core.Ctx) {
 	ruleUIDReadBack(c)
 
 	// ------------------------------------------------------------ registration
-	c.Doc("C18.registration", "RegisterTo of composite types registers every component type; the printer registers what it printed on every successful path", 4)
+	c.Doc("C18.registration", "RegisterTo of composite types registers every component type; the printer registers what it printed on every successful path, and every signature it parsed", 8)
 	ruleRegistrationOnEveryPath(c, "C18.registration")
+	ruleParsedTypesRegistered(c, "C18.registration")
 	ruleNamesComparedAsStored(c, "C18.registration")
 	ruleRegisterComponents(c)
 
@@ -224,7 +225,7 @@ func runC18(c *core.Ctx) {
 	// the builder of the name part returns strings only (computed, not assumed)
 	allowed := map[string]string{}
 	if ok, why := returnsOnlyStrings(c, "meta/idl", "nodifyPackageNameAnd"); ok {
-		allowed["meta/idl.nodifyPackage"] = "the package-name node comes from nodifyPackageNameAnd, every return of which is a string (checked), passed through nodifyPackageNameMaybe and nodifyPackageName, which returns an error node only for a non-string"
+		allowed["meta/idl.nodifyPackage:string"] = "the package-name node comes from nodifyPackageNameAnd, every return of which is a string (checked), passed through nodifyPackageNameMaybe and nodifyPackageName, which returns an error node only for a non-string"
 	} else {
 		c.Note("nodifyPackage exception not granted: %s", why)
 	}
@@ -418,6 +419,101 @@ func ruleRegistrationOnEveryPath(c *core.Ctx, rule string) {
 	}
 	if n == 0 {
 		c.Undecided(rule, "meta/idl", token.NoPos, "no registration of printed types found in the IDL printer")
+	}
+}
+
+// ruleParsedTypesRegistered: in the IDL printer, a function that is given the
+// type set and parses a signature of the meta-object (a call yielding
+// (signature.Type, error)) registers that very type in the set on every path
+// on which it succeeds. The printed line names struct types; their `struct …
+// end` blocks are written from the set alone, so a type that is printed but not
+// registered (a struct used by a property only, when "the signal registers it")
+// parses back as an unresolved reference.
+func ruleParsedTypesRegistered(c *core.Ctx, rule string) {
+	n := 0
+	isTypeSet := func(t types.Type) bool { return core.TypeIs(t, "meta/signature", "TypeSet") }
+	for _, fn := range srcFuncsOfPkg(c, "meta/idl") {
+		if fn.Parent() != nil || hasErrorResult(fn.Signature) < 0 || core.ParamOfType(fn, isTypeSet) == nil {
+			continue
+		}
+		k := 0
+		for _, call := range core.Calls(fn) {
+			cl, ok := call.(*ssa.Call)
+			if !ok {
+				continue
+			}
+			res, isTuple := cl.Type().(*types.Tuple)
+			if !isTuple || res.Len() != 2 || !core.IsErrorType(res.At(1).Type()) || !core.TypeIs(res.At(0).Type(), "meta/signature", "Type") {
+				continue
+			}
+			if _, isIface := res.At(0).Type().Underlying().(*types.Interface); !isIface {
+				continue
+			}
+			k++
+			n++
+			key := fmt.Sprintf("%s/parsed#%d", core.FuncKey(fn), k)
+			isParsed := func(v ssa.Value) bool {
+				v = core.Canon(v)
+				if ex, ok := v.(*ssa.Extract); ok && ex.Index == 0 && ex.Tuple == ssa.Value(cl) {
+					return true
+				}
+				return false
+			}
+			// the registration: RegisterTo invoked on the parsed value, or the parsed value
+			// handed to a function of the repository that registers its parameter
+			var registersParam func(f *ssa.Function, idx, depth int) bool
+			registersParam = func(f *ssa.Function, idx, depth int) bool {
+				if f == nil || depth > 2 || idx >= len(f.Params) || len(f.Blocks) == 0 {
+					return false
+				}
+				for _, c2 := range core.Calls(f) {
+					cc := c2.Common()
+					if cc.IsInvoke() && cc.Method.Name() == "RegisterTo" && core.Canon(cc.Value) == ssa.Value(f.Params[idx]) {
+						return true
+					}
+					for j, a := range cc.Args {
+						if core.Canon(a) == ssa.Value(f.Params[idx]) && !cc.IsInvoke() && registersParam(cc.StaticCallee(), j, depth+1) {
+							return true
+						}
+					}
+				}
+				return false
+			}
+			isReg := func(x ssa.Instruction) bool {
+				c2, ok := x.(ssa.CallInstruction)
+				if !ok {
+					return false
+				}
+				if _, plain := x.(*ssa.Call); !plain {
+					return false
+				}
+				cc := c2.Common()
+				if cc.IsInvoke() && cc.Method.Name() == "RegisterTo" && isParsed(cc.Value) {
+					return true
+				}
+				if !cc.IsInvoke() {
+					for j, a := range cc.Args {
+						if isParsed(a) && registersParam(cc.StaticCallee(), j, 0) {
+							return true
+						}
+					}
+				}
+				return false
+			}
+			bad := ""
+			for _, ret := range core.Returns(fn) {
+				if !successReturn(ret) {
+					continue
+				}
+				if !core.MustPassBefore(fn, ret, isReg) {
+					bad = "the type parsed here (" + core.CalleeName(cl) + ") is not registered in the type set on the path to the successful return at " + c.Pos(ret.Pos()) + ": the line printed for it names its struct types, but their struct blocks are written from the set alone, so a struct used only here parses back as an unresolved reference"
+				}
+			}
+			c.Check(bad == "", rule, key, cl.Pos(), "the parsed type is registered in the set on every successful path", bad)
+		}
+	}
+	if n == 0 {
+		c.Undecided(rule, "meta/idl/parsed", token.NoPos, "no signature parsed by a function of the IDL printer that holds the type set")
 	}
 }
 
